@@ -176,12 +176,14 @@ PROPERTIES = {
     },
     "C14": {
         "level": "other",
-        "units": [("contracts.netinv", "network_add_reaction"), ("contracts.netinv", "network_find_source_sink"), ("contracts.identity", "species_eq_hash"), ("contracts.identity", "reaction_eq_hash"), ("contracts.fileloop", "network_entry_points")],
+        "units": [("contracts.netinv", "network_add_reaction"), ("contracts.netinv", "network_remove_reaction"), ("contracts.netinv", "network_find_source_sink"), ("contracts.identity", "species_eq_hash"), ("contracts.identity", "reaction_eq_hash"), ("contracts.fileloop", "network_entry_points")],
         "extra": [frame.state_frame_items, frame.shared_default_items, frame.assigns_items, netinv.lemma_items],
         "oracle": native_net.oracle("C14"),
-        "trusted_base": ["Species.__eq__/__hash__ form an equivalence with consistent hash (species are abstract objects with a class id)", "<= 3 reactants, <= 5 products per reaction"],
+        "trusted_base": ["Species.__eq__/__hash__ form an equivalence with consistent hash (species are abstract objects with a class id)", "<= 3 reactants, <= 5 products per reaction",
+                         "Reaction.__eq__ between abstract reactions is an uninterpreted reflexive relation in the removal unit (its properties are proved in identity.py)",
+                         "engine rule: set(sp for r in L for sp in r.reactants) == RSET(L, |L|) (definitional: RSET is the union over the list of the members' reactant classes); list.pop(k) modelled as a z3 lambda array (elements after k move down)"],
         "contract_files": ["netinv.py", "identity.py"],
-        "explanation": "mixed. PROVED (pyvc): Network._add_reaction preserves the representation invariant (_reactants/_products are the unions over the held list, defined recursively; frame lemma by induction), appends exactly to the held or to the skipped list according to the allowed set, and returns exactly the new classes (membership tests on the skipped list are modelled, so a conditional append fails the postcondition); the required-species setter stores exactly the named species whatever the network holds; find_source_sink returns the two set differences and changes nothing. BOUNDED: removal (all four argument shapes), allowed/required setters, de-duplication, re-indexing and whole histories - seeded random edit histories (add/remove by index, list, instance/allowed/required/dedup/reindex) checked after every step against a reference model recomputed from the surviving reactions, plus setter-vs-constructor agreement. Removal and the allowed-species setter are not under contract (list rebuilding over Species hashing); the bounded parts are not counted as proved.",
+        "explanation": "mixed. PROVED (pyvc): Network._add_reaction preserves the representation invariant (_reactants/_products are the unions over the held list, defined recursively; frame lemma by induction), appends exactly to the held or to the skipped list according to the allowed set, and returns exactly the new classes (membership tests on the skipped list are modelled, so a conditional append fails the postcondition); the required-species setter stores exactly the named species whatever the network holds; find_source_sink returns the two set differences and changes nothing. PROVED (pyvc, held lists of any length): Network.remove_reaction with an integer position of either sign (out of range raises IndexError and changes nothing; otherwise the held list is the old one without that position, order kept) and with a Reaction instance (filter comprehension executed as a loop under contract with ghost source positions: what remains is exactly the sub-sequence of held reactions that do not compare equal to the argument, in order, each once), any other argument type is refused with TypeError and nothing changed; in every case the skipped list is untouched and both caches are the unions over the reactions that are LEFT (the nested generator `sp for r in list for sp in r.reactants` is the recursive spec function RSET by definition). Assigns clauses (AST scan): remove_reaction / _add_reaction / find_duplicate_reaction / find_source_sink / where_reaction / where_species write only the attributes of their clause (in particular never the modifier tables) and call no unlisted method of self. BOUNDED: removal with list-valued arguments (index lists, reaction lists), allowed/required setters, de-duplication, re-indexing and whole histories - seeded random edit histories (add/remove by index, list, instance/allowed/required/dedup/reindex) checked after every step against a reference model recomputed from the surviving reactions, plus setter-vs-constructor agreement. Removal by index list / reaction list and the allowed-species setter are not under contract (membership tests over a second symbolic list); the bounded parts are not counted as proved.",
     },
     "C15": {
         "level": "other",
